@@ -251,6 +251,13 @@ class Ctx(object):
         import hypothesis
         from hypothesis import HealthCheck, Phase, given, settings
 
+        # a failing case is shrunk for at most 40 s (quick) / 240 s (thorough) per round instead of Hypothesis' 300 s: what is
+        # reported is still a case that really fails (the best one found so far), only possibly less small
+        try:
+            from hypothesis.internal.conjecture import engine as _engine
+            _engine.MAX_SHRINKING_SECONDS = 40 if self.quick else 240
+        except Exception:  # noqa
+            pass
         base = int(hashlib.blake2b(("%s/%s/%s" % (self.pid, check_name, getattr(self, "shard", 0))).encode(),
                                    digest_size=4).hexdigest(), 16)
         for rnd in range(max_rounds):
